@@ -75,6 +75,7 @@ def sym_execute(prog, ob, slice_dom, checks_on):
     dom = dict(ob.dom); dom.update(slice_dom)
     args, cons, names = make_args(ex, f, dom, ob.strlen)
     ex.dom_constraints = list(cons)
+    ex.scratch = prog.scratch
     t0 = time.time()
     val, rg = ex.call_body(f, args, T)
     # known-finding classes: assume(!class(args))
